@@ -769,6 +769,32 @@ def zrank_init(rep, ex: Explorer, cls=ZP):
                     rep.check(untouched, "FACT.shape" if with_facts else "ZRANK.recursion", site, f"caller's base untouched (extended={ext.value}, facts={with_facts})",
                               "constructing the ranking leaves the conditionals of the caller's belief base as they were",
                               extracted=f"{len(d0.entries)} literal entries, {len(d0.each)} group(s)", required="the base's own conditionals only", function=site)
+                # the diagnostics (carried by a refusal, kept in the metadata): computed for the caller's base, in the same
+                # mode, with the facts that were given, from the partition just computed
+                dg = [ev for ev, Q in iter_events(p.events) if ev.kind == "diagnostics"]
+                if dg and with_facts:  # (without facts nothing is refused: the diagnostics are bookkeeping only)
+                    dparams = [a.arg for a in ex.prog.function("inference.consistency_diagnostics.consistency_diagnostics").node.args.args]
+                    for dv in dg[:1]:
+                        b_ = {dparams[i]: v for i, v in enumerate(dv.args) if i < len(dparams)}
+                        b_.update(dv.kwargs)
+                        bbv = b_.get("belief_base")
+                        bo = p.state.heap.get(bbv.oid) if isinstance(bbv, Ref) else None
+                        cd_ = p.state.heap.get(bo.attrs["conditionals"].oid) if isinstance(bo, HObj) and isinstance(bo.attrs.get("conditionals"), Ref) else None
+                        own = isinstance(cd_, HDict) and not cd_.entries and len(cd_.each) == 1 and cd_.each[0][2] == KEYS_D
+                        okd = own and b_.get("extended") == Const(bool(want_mode)) and b_.get("uses_facts") == Const(bool(with_facts)) \
+                            and (b_.get("facts") == ElemV(("facts",), "coll", "factentry") if with_facts else b_.get("facts") in (None, Const(None)))
+                        pre = b_.get("precomputed")
+                        pd = p.state.heap.get(pre.oid) if isinstance(pre, Ref) else None
+                        okp = True
+                        if isinstance(pd, HDict):
+                            wantkey = ("combined_" if with_facts else "base_") + ("extended" if want_mode else "standard")
+                            for k_, v_ in pd.entries.items():
+                                first = v_.items[0] if isinstance(v_, TupleV) and v_.items else None
+                                okp = okp and k_ == wantkey and isinstance(first, ElemV) and first.var == ("part", c.pid)
+                        rep.check(okd and okp, "ZRANK.refuse" if with_facts else "ZRANK.recursion", f"{site}:{dv.node.lineno}", f"diagnostics arguments (extended={ext.value}, facts={with_facts})",
+                                  "the diagnostics are those of the caller's base in this mode with these facts, fed with the partition just computed under its own name",
+                                  extracted=f"own base={own}, extended={b_.get('extended')!r}, uses_facts={b_.get('uses_facts')!r}, facts={b_.get('facts')!r}, precomputed keys={list(pd.entries) if isinstance(pd, HDict) else None}"[:220],
+                                  required=f"base, extended={bool(want_mode)}, uses_facts={bool(with_facts)}", function=site)
                 ents, each = c.bbdesc[1], c.bbdesc[2]
                 base_each = [e for e in each if e[0] == KEYS_D]
                 fact_each = [e for e in each if e[0] != KEYS_D]
